@@ -103,6 +103,10 @@ func (st *State) stdlibSpecial(fn *types.Func, recv *Val, args []Val, call *ast.
 		nv := st.arith("+", cur, args[1], pt, call.Pos(), exprStr(call))
 		st.storeThrough(args[0], nv, call.Pos(), exprStr(call.Args[0]))
 		return []Val{nv}, true
+	case "strings.Builder.Grow", "strings.Builder.WriteRune", "strings.Builder.WriteByte", "strings.Builder.WriteString", "strings.Builder.Write",
+		"strings.Builder.String", "strings.Builder.Len", "strings.Builder.Cap", "strings.Builder.Reset":
+		note()
+		return st.builderOp(fn.Name(), *recv, args, call), true
 	case "errors.New", "fmt.Errorf":
 		note()
 		e := fc.fresh("err", "Int")
@@ -172,4 +176,78 @@ func (st *State) encodeRune(p, rv Val, call *ast.CallExpr) Val {
 	st.noteWrite(name, p.arr())
 	st.heapSet(name, srt, sStore(h, p.arr(), nrow))
 	return vInt(n, intType)
+}
+
+// builderOp models strings.Builder on its real representation: the field buf []byte is the content.
+func (st *State) builderOp(method string, recv Val, args []Val, call *ast.CallExpr) []Val {
+	bv := st.deref(recv, call.Pos(), "strings.Builder receiver")
+	bt := bv.T.Underlying().(*types.Struct)
+	bi := -1
+	for i := 0; i < bt.NumFields(); i++ {
+		if bt.Field(i).Name() == "buf" {
+			bi = i
+		}
+	}
+	if bi < 0 {
+		panic(vcErr("strings.Builder has no buf field in this Go version"))
+	}
+	buf := bv.Sub[bi]
+	bufT := bt.Field(bi).Type()
+	setBuf := func(nb Val) {
+		nv := bv
+		nv.Sub = append([]Val(nil), bv.Sub...)
+		nv.Sub[bi] = nb
+		st.storeThrough(recv, nv, call.Pos(), "strings.Builder receiver")
+	}
+	errT := types.Universe.Lookup("error").Type()
+	switch method {
+	case "Len":
+		return []Val{vInt(buf.length(), intType)}
+	case "Cap":
+		return []Val{vInt(buf.capa(), intType)}
+	case "Reset":
+		setBuf(st.zeroVal(bufT))
+		return nil
+	case "String":
+		c := st.fc.fresh("sbstr", "(Array Int Int)")
+		h := st.heapGet("E!uint8!", "(Array Int (Array Int Int))")
+		st.assume(fmt.Sprintf("(forall ((g_k Int)) (! (= (select %s g_k) (select (select %s %s) (+ %s g_k))) :pattern ((select %s g_k))))", c, h, buf.arr(), buf.off(), c))
+		return []Val{mkString(types.Typ[types.String], c, "0", buf.length())}
+	case "Grow":
+		n := args[0].S
+		st.oblige("panic-unreachable", "strings.Builder.Grow-negative("+exprStr(call)+")", sCmp(">=", n, "0"), call.Pos())
+		// if cap-len < n: reallocate with capacity 2*cap+n (content preserved); else unchanged
+		need := st.define("grow", "Bool", sCmp("<", sSub(buf.capa(), buf.length()), n))
+		fresh := st.allocRef()
+		newCap := st.define("cap", "Int", sAdd(sMul("2", buf.capa()), n))
+		name := "E!uint8!"
+		srt := "(Array Int (Array Int Int))"
+		h := st.heapGet(name, srt)
+		row := st.fc.fresh("row", "(Array Int Int)")
+		st.assume(fmt.Sprintf("(forall ((g_k Int)) (! (=> (and (<= 0 g_k) (< g_k %s)) (= (select %s g_k) (select (select %s %s) (+ %s g_k)))) :pattern ((select %s g_k))))", buf.length(), row, h, buf.arr(), buf.off(), row))
+		st.noteWrite(name, fresh)
+		st.heapSet(name, srt, sIte(need, sStore(h, fresh, row), h))
+		nb := mkSlice(bufT, st.define("arr", "Int", sIte(need, fresh, buf.arr())), st.define("off", "Int", sIte(need, "0", buf.off())), buf.length(), st.define("cap", "Int", sIte(need, newCap, buf.capa())))
+		setBuf(nb)
+		return nil
+	case "WriteByte":
+		nb := st.appendVals(buf, bufT, []Val{vInt(args[0].S, types.Typ[types.Uint8])})
+		setBuf(nb)
+		return []Val{vInt("0", errT)}
+	case "WriteString", "Write":
+		nb := st.appendSeq(buf, bufT, args[0])
+		setBuf(nb)
+		return []Val{vInt(args[0].length(), intType), vInt("0", errT)}
+	case "WriteRune":
+		// append(buf, 0,0,0,0)[:len] then EncodeRune into the tail, keep n bytes
+		r := args[0]
+		z := vInt("0", types.Typ[types.Uint8])
+		tmp := st.appendVals(buf, bufT, []Val{z, z, z, z})
+		tail := mkSlice(bufT, tmp.arr(), st.define("off", "Int", sAdd(tmp.off(), buf.length())), "4", "4")
+		n := st.encodeRune(tail, r, call)
+		nb := mkSlice(bufT, tmp.arr(), tmp.off(), st.define("len", "Int", sAdd(buf.length(), n.S)), tmp.capa())
+		setBuf(nb)
+		return []Val{n, vInt("0", errT)}
+	}
+	panic(vcErr("unsupported strings.Builder method " + method))
 }
